@@ -239,7 +239,10 @@ def run_case(case, trace_lines=True):
             if isinstance(e, (KeyboardInterrupt, SystemExit, GeneratorExit)):
                 raise
             e.__traceback__ = None  # no frame cycles: nothing of this case may be left to the cyclic GC
-            tr.exc = e
+            if isinstance(e, AssertionError) and case['buffer'] < max(1, case['workers']) and not tr.delivered:
+                tr.construct_error = e  # the invalid buffer size was rejected at the first next(): nothing to judge
+            else:
+                tr.exc = e
         if case.get('dual'):
             try:
                 for x in it2:
@@ -259,6 +262,22 @@ def run_case(case, trace_lines=True):
                 except BaseException as e:  # noqa: judged by judge_termination
                     e.__traceback__ = None
                     tr.close_exc = e
+            elif stop['kind'] == 'throw' and hasattr(it, 'throw'):
+                # the consumer's loop body failed inside a `yield from` / generator wrapper: the exception is thrown
+                # INTO the iterator at its yield and must come back out after the clean-up
+                marker = progs.VErrC('thrown-by-consumer')
+                try:
+                    it.throw(marker)
+                except detsched.Abort:
+                    raise
+                except BaseException as e:  # noqa
+                    e.__traceback__ = None
+                    if e is not marker:
+                        tr.close_exc = e
+                else:
+                    tr.close_exc = RuntimeError('throw() returned a value instead of raising')
+            elif stop['kind'] == 'throw':
+                it.close()
             elif stop['kind'] == 'del':
                 del it
             else:
@@ -334,6 +353,11 @@ def judge_termination(tr):
 def judge_cancel(tr):
     """C05 (d): consumer-initiated early stop => nothing still pending and un-cancelled when the pool shuts down."""
     if not tr.stopped_by_consumer:
+        return
+    if tr.case.get('stop', {}).get('kind') == 'throw':
+        # an exception thrown INTO the iterator is not among the stop points the statement lists for the cancellation
+        # clause (the pool path only cancels on GeneratorExit; pending tasks run before control returns): clean
+        # termination is still required (judge_termination), cancellation is not asserted
         return
     for ex in tr.executors:
         if ex.pending_at_shutdown:
@@ -517,6 +541,8 @@ def st_case(draw, profile):
         case['buffer'] = b + 0.5  # buffer sizes are often computed (len(ds) / 16): not necessarily an int
     if profile == 'readahead' and kind == 'pf' and w == 1 and draw(st.integers(0, 9)) == 0:
         case['buffer'] = 0  # must be rejected (or, if accepted, still obey the bound)
+    elif profile == 'readahead' and kind in ('pf', 'pm', 'lpm') and w >= 2 and draw(st.integers(0, 7)) == 0:
+        case['buffer'] = w - 1  # fewer buffer slots than workers: rejected, or the bound of the REQUESTED size holds
     if n >= 2 and draw(st.integers(0, 3)) > 0:
         # one slow task (many internal yield points): what makes later tasks finish before earlier ones
         case['slow'] = [draw(st.integers(0, n - 2)), draw(st.integers(8, 40))]
@@ -538,7 +564,7 @@ def st_case(draw, profile):
         case['src_fail'], case['fn_fail'] = src_fail, fn_fail
         iter_fail = (kind in ('stp', 'lpm') or (kind == 'pf' and w == 1)) and draw(st.integers(0, 5)) == 0
         if kind == 'pf':
-            case['catch'] = draw(st.sampled_from([False, 'VErrA', ['VErrA', 'VErrC'], 'VErrB']))
+            case['catch'] = draw(st.sampled_from([False, 'VErrA', ['VErrA', 'VErrC'], 'VErrB', ['VBase', 'VErrA']]))
             if 'dual' in case and case['catch'] is not False:
                 case.pop('dual')
             if case['catch'] is not False and draw(st.integers(0, 2)) == 0:
@@ -577,7 +603,7 @@ def st_case(draw, profile):
         if w > 1:
             case.pop('with_key', None)
     if profile == 'stop':
-        sk = draw(st.sampled_from(['exhaust', 'close', 'close', 'del', 'gc']))
+        sk = draw(st.sampled_from(['exhaust', 'close', 'close', 'del', 'gc', 'throw']))
         case['stop'] = {'kind': sk, 'k': draw(st.integers(0, n + 1)) if sk != 'exhaust' else 0}
         if draw(st.integers(0, 3)) == 0 and n:
             p = draw(st.integers(0, n - 1))
